@@ -1,0 +1,17 @@
+//go:build verif
+
+package fasthttp
+
+// Thin exports for the /verif correspondence harness (property C32).
+
+func VerifTables() [][]byte {
+	return [][]byte{
+		[]byte(hex2intTable), []byte(toLowerTable), []byte(toUpperTable),
+		[]byte(quotedArgShouldEscapeTable), []byte(quotedPathShouldEscapeTable),
+		[]byte(validHeaderFieldByteTable), []byte(validHeaderValueByteTable), []byte(validMethodValueByteTable),
+	}
+}
+
+func VerifNormalizeHeaderKey(b []byte, disableNormalizing bool) { normalizeHeaderKey(b, disableNormalizing) }
+
+func VerifIsValidMethod(m []byte) bool { return isValidMethod(m) }
